@@ -35,7 +35,7 @@ theorem v2MessageId_spec (kvs : List (Str × J)) (req : Bool) :
   unfold v2MessageId idK
   cases h : J.lookup kId kvs with
   | none => simp [h]
-  | some rid => cases rid <;> simp [h, J.isNumber, J.isStr, J.isNone]
+  | some rid => cases rid <;> simp [h, J.isNumber, J.isStr, J.isNone, J.isBool]
 
 theorem v1MessageId_spec (kvs : List (Str × J)) :
     v1MessageId (.obj kvs) =
